@@ -30,12 +30,18 @@ class Unsupported(Exception):
 
 
 def num_tok(x) -> str:
+    """Infinities are outside the model: they get a token the driver rejects; callers that feed the driver check has_inf."""
     if isinstance(x, float):
         if math.isnan(x):
             return "nan"
         if math.isinf(x):
-            raise Unsupported("infinity is outside the model")
+            return "inf" if x > 0 else "-inf"
     return "n " + qtok(x)
+
+
+def has_inf(tokens: str) -> bool:
+    t = tokens.split()
+    return "inf" in t or "-inf" in t
 
 
 def jv_tok(x) -> str:
@@ -89,7 +95,7 @@ def cell_tok(x) -> str:
     if isinstance(x, float) and math.isnan(x):
         return "nan"
     if isinstance(x, float) and math.isinf(x):
-        raise Unsupported("infinity is outside the model")
+        return "inf" if x > 0 else "-inf"
     return qtok(x)
 
 
